@@ -1,5 +1,6 @@
 SPECIFICATION Spec
 CONSTANT MaxLen = 5
+CONSTANT Latin1 = FALSE
 INVARIANT ScannerEqualsRule
 INVARIANT WordsPartition
 INVARIANT StyleShapes
